@@ -35,7 +35,9 @@ CFG_FILES = ["pycalver.toml", "bumpver.toml", ".bumpver.toml", "pyproject.toml",
 OTHER_FILES = ["README.md", "README.rst", "setup.py"]
 
 UNRELATED = {
-    "setup.cfg": "[metadata]\nname = demo\n\n[options]\nzip_safe = False\n\n[tool:pytest]\naddopts = -q\n\n[bumpversion]\ncommit = True\n",
+    # (both INI delimiters, a continuation line, a value that contains the other delimiter, a key without value)
+    "setup.cfg": "[metadata]\nname = demo\ndescription: colon style\nurl = https://example.invalid/x?a=b\nclassifiers =\n    Programming Language :: Python :: 3\n\n"
+                 "[options]\nzip_safe = False\n\n[tool:pytest]\naddopts = -q\n\n[bumpversion]\ncommit = True\n",
     "pyproject.toml": '[build-system]\nrequires = ["setuptools"]\n\n[tool.black]\nline-length = 100\n',
     # dedicated files that already hold other tables, also below [tool] (where pyproject.toml keeps its bumpver section)
     "pycalver.toml": '[other]\nkey = "value"\n\n[tool.black]\nline-length = 100\n',
